@@ -117,10 +117,17 @@ def run_impl(case):
         with dask.config.set(scheduler='synchronous'):
             out = cur[k2]
             if case['joint']:
-                other = DaskLazyIndexer(cur, (), [lambda a: a + 7])
-                outs = DaskLazyIndexer.get([cur, other], k2)
-                res['joint_ok'] = (np.array_equal(outs[0], out) and np.array_equal(outs[1], other[k2])
-                                   and outs[0].dtype == out.dtype)
+                # indexers of different dtypes over the same selection, fetched jointly in a case-dependent order
+                group = [cur, DaskLazyIndexer(cur, (), [lambda a: a + 7]),
+                         DaskLazyIndexer(cur, (), [lambda a: a.astype(np.float32) * 0.5]),
+                         DaskLazyIndexer(cur, (), [lambda a: a % 3 == 0])]
+                rot = sum(case['shape']) % len(group)
+                group = group[rot:] + group[:rot]
+                singly = [np.asarray(g[k2]) for g in group]
+                outs = DaskLazyIndexer.get(group, k2)
+                res['joint_ok'] = all(o.dtype == e.dtype and o.shape == e.shape and np.array_equal(o, e)
+                                      for o, e in zip(outs, singly)) and \
+                    np.array_equal(outs[(len(group) - rot) % len(group)], out)
         res['out'] = np.asarray(out)
     except Exception as e:   # noqa: BLE001 - classification is the point
         res['err'] = type(e).__name__
